@@ -4,18 +4,15 @@
 package propsconn
 
 import (
-	"encoding/base64"
 	"encoding/json"
 	"fmt"
 	"io/ioutil"
 	"math/big"
-	"net/http"
 	"net/http/httptest"
 	"os"
 	"path/filepath"
 	"strconv"
 	"strings"
-	"sync"
 	"testing"
 
 	sdk "github.com/cosmos/cosmos-sdk/types"
@@ -30,6 +27,7 @@ import (
 	"github.com/MinterTeam/mhub2/minter-connector/minter"
 	"github.com/MinterTeam/minter-go-sdk/v2/api/http_client"
 
+	"verifharness/connkit"
 	"verifharness/pbt"
 )
 
@@ -46,92 +44,13 @@ func TestMain(m *testing.M) {
 	os.Exit(m.Run())
 }
 
-const multisig = "Mx7072558b2b91e62dbed78e9a3453e5c9e01fec5e"
-const otherAddr = "Mx1111111111111111111111111111111111111111"
+const multisig = connkit.Multisig
+const otherAddr = connkit.OtherAddr
 
-// ---------------------------------------------------------------- scripted Minter node
-
-type mTx struct {
-	Kind    string `json:"kind"` // deposit | bad-deposit | send-elsewhere | batch | foreign-multisend | valset | valset-bad | other
-	Payload string `json:"payload,omitempty"`
-}
-
-type mBlock struct {
-	Txs []mTx `json:"txs"`
-}
-
-// bridge event? (what the connector must number)
-func (t mTx) isEvent() bool { return t.Kind == "deposit" || t.Kind == "batch" || t.Kind == "valset" }
-
-type node struct {
-	mu     sync.Mutex
-	blocks []mBlock // heights 1..len
-	latest uint64
-}
-
-func (n *node) txJSON(h uint64, i int, t mTx) map[string]interface{} {
-	tx := map[string]interface{}{
-		"hash": fmt.Sprintf("Mt%062x%02x", h, i), "height": fmt.Sprint(h), "index": fmt.Sprint(i), "from": otherAddr, "nonce": "1", "gas_price": "1",
-		"gas_coin": map[string]interface{}{"id": "0", "symbol": "BIP"}, "gas": "10", "type_hex": "0x01", "code": "0", "log": "", "raw_tx": "", "tags": map[string]string{},
-	}
-	send := func(to string) map[string]interface{} {
-		return map[string]interface{}{"@type": "type.googleapis.com/api_pb.SendData", "coin": map[string]interface{}{"id": "1", "symbol": "HUB"}, "to": to, "value": "1000000000000000000000"}
-	}
-	switch t.Kind {
-	case "deposit", "bad-deposit":
-		tx["type"] = "1"
-		tx["data"] = send(multisig)
-		tx["payload"] = base64.StdEncoding.EncodeToString([]byte(t.Payload))
-	case "send-elsewhere":
-		tx["type"] = "1"
-		tx["data"] = send(otherAddr)
-		tx["payload"] = base64.StdEncoding.EncodeToString([]byte(t.Payload))
-	case "batch", "foreign-multisend":
-		tx["type"] = "13"
-		if t.Kind == "batch" {
-			tx["from"] = multisig
-		}
-		tx["data"] = map[string]interface{}{"@type": "type.googleapis.com/api_pb.MultiSendData", "list": []interface{}{
-			map[string]interface{}{"coin": map[string]interface{}{"id": "1", "symbol": "HUB"}, "to": otherAddr, "value": "5"}}}
-	case "valset", "valset-bad":
-		tx["type"] = "18"
-		tx["from"] = multisig
-		tx["data"] = map[string]interface{}{"@type": "type.googleapis.com/api_pb.EditMultisigData", "threshold": "667", "weights": []string{"500", "500"}, "addresses": []string{otherAddr, multisig}}
-		tx["payload"] = base64.StdEncoding.EncodeToString([]byte(t.Payload))
-	default:
-		tx["type"] = "2"
-		tx["data"] = map[string]interface{}{"@type": "type.googleapis.com/api_pb.SellCoinData", "coin_to_sell": map[string]interface{}{"id": "0", "symbol": "BIP"}, "value_to_sell": "1",
-			"coin_to_buy": map[string]interface{}{"id": "1", "symbol": "HUB"}, "minimum_value_to_buy": "1"}
-	}
-	return tx
-}
-
-func (n *node) ServeHTTP(w http.ResponseWriter, r *http.Request) {
-	n.mu.Lock()
-	defer n.mu.Unlock()
-	w.Header().Set("Content-Type", "application/json")
-	switch {
-	case strings.HasSuffix(r.URL.Path, "/status"):
-		json.NewEncoder(w).Encode(map[string]interface{}{"latest_block_height": fmt.Sprint(n.latest), "version": "3", "network": "test", "initial_height": "1",
-			"latest_block_hash": "00", "latest_app_hash": "00", "latest_block_time": "2021-01-01T00:00:00Z", "keep_last_states": "0", "total_slashed": "0",
-			"catching_up": false, "public_key": "Mp00", "node_id": "0", "current_emission": "0"})
-	case strings.HasSuffix(r.URL.Path, "/blocks"):
-		from, _ := strconv.ParseUint(r.URL.Query().Get("from_height"), 10, 64)
-		to, _ := strconv.ParseUint(r.URL.Query().Get("to_height"), 10, 64)
-		var out []interface{}
-		for h := from; h <= to && h <= n.latest && h >= 1 && int(h) <= len(n.blocks); h++ {
-			var txs []interface{}
-			for i, t := range n.blocks[h-1].Txs {
-				txs = append(txs, n.txJSON(h, i, t))
-			}
-			out = append(out, map[string]interface{}{"height": fmt.Sprint(h), "hash": "00", "time": "2021-01-01T00:00:00Z", "transaction_count": fmt.Sprint(len(txs)),
-				"transactions": txs, "block_reward": "0", "size": "1", "proposer": "Mp00", "validators": []interface{}{}, "evidence": map[string]interface{}{"evidence": []interface{}{}}, "missed": []string{}, "events": []interface{}{}, "code": "0"})
-		}
-		json.NewEncoder(w).Encode(map[string]interface{}{"blocks": out})
-	default:
-		http.Error(w, `{"error":{"code":"404","message":"not found"}}`, 404)
-	}
-}
+// the scripted Minter node lives in verifharness/connkit (shared with the check of the connector's package main)
+type mTx = connkit.MTx
+type mBlock = connkit.MBlock
+type node = connkit.Node
 
 // ---------------------------------------------------------------- cursor case
 
@@ -199,7 +118,7 @@ func refCursor(c *CursorCase, h uint64) cursor {
 	cur := cursor{Block: h, Event: startEvent, Batch: startBatch, Valset: startValset}
 	for b := c.StartBlock + 1; b <= h; b++ {
 		for _, t := range c.Blocks[b-1].Txs {
-			if !t.isEvent() {
+			if !t.IsEvent() {
 				continue
 			}
 			cur.Event++
@@ -239,7 +158,7 @@ func writeStatus(path string, c cursor) {
 
 func runCursorCase(ci interface{}, rec *pbt.Rec) *pbt.Failure {
 	c := ci.(*CursorCase)
-	nd := &node{blocks: c.Blocks}
+	nd := &node{Blocks: c.Blocks}
 	srv := httptest.NewServer(nd)
 	defer srv.Close()
 	client, err := http_client.New(srv.URL)
@@ -271,9 +190,7 @@ func runCursorCase(ci interface{}, rec *pbt.Rec) *pbt.Failure {
 					stored = refCursor(c, uint64(h0))
 					writeStatus(file, stored)
 				}
-				nd.mu.Lock()
-				nd.latest = b
-				nd.mu.Unlock()
+				nd.SetLatest(b)
 				ctx := mctx.Context{MinterMultisigAddr: multisig, MinterClient: client, Logger: log.NewNopLogger()}
 				ctx.LoadStatus(file, cfg)
 				ctx = minter.GetLatestMinterBlockAndNonce(ctx, ack)
@@ -291,7 +208,7 @@ func runCursorCase(ci interface{}, rec *pbt.Rec) *pbt.Failure {
 				busy := 0
 				if got.Block+1 <= n {
 					for _, t := range c.Blocks[got.Block].Txs {
-						if t.isEvent() {
+						if t.IsEvent() {
 							busy++
 						}
 					}
@@ -327,9 +244,7 @@ func runCursorCase(ci interface{}, rec *pbt.Rec) *pbt.Failure {
 	full, _ := json.Marshal(map[string]uint64{"last_checked_minter_block": n, "last_event_nonce": 99, "last_batch_nonce": 9, "last_valset_nonce": 9})
 	for _, cut := range []int{0, 1, len(full) / 2, len(full) - 1} {
 		ioutil.WriteFile(file, full[:cut], 0o644)
-		nd.mu.Lock()
-		nd.latest = n
-		nd.mu.Unlock()
+		nd.SetLatest(n)
 		ctx := mctx.Context{MinterMultisigAddr: multisig, MinterClient: client, Logger: log.NewNopLogger()}
 		ctx.LoadStatus(file, cfg)
 		ctx = minter.GetLatestMinterBlockAndNonce(ctx, 0)
